@@ -355,7 +355,7 @@ let handle kind c =
     done;
     if quiet_at = 0 then quiet_local := Some (List.map (fun (n, (_, ct)) -> (string_of_bytes n, (-1, desc_of_content allowed ct))) local0);
     (match status with
-     | "hang" -> prop "hang" "the uploaders did not finish within the step budget"
+     | "hang" -> prop "hang" "the uploaders did not finish: step budget exceeded, or a run stopped making calls without returning (watchdog)"
      | _ ->
        if not !diverged && not (quiescent !st) then
          diff "model-threads-not-finished" ~model:"some thread neither Done nor killed" ~impl:"all runs returned or were killed");
